@@ -6,7 +6,7 @@
 (***************************************************************************)
 EXTENDS DirWalk, TLC, Json
 
-CONSTANTS MaxTop, MaxSub, Deep, Small, OverwriteOnReturn
+CONSTANTS MaxTop, MaxSub, Deep, Small, Dump, OverwriteOnReturn
 
 \* names: two eligible, a Foundry test file, a non-Solidity file, an upper-case extension
 N(text, sol, tsol) == [text |-> text, sol |-> sol, tsol |-> tsol]
@@ -98,6 +98,6 @@ Prune(t) == Tree(LET RECURSIVE Go(_)
 Inert == Done => UnionExact(Prune(tree), Res, pats, result)
 Terminates == <>Done
 
-DumpBehaviour == (phase = "walk" /\ Len(stack) = 1 /\ Top.todo = tree.entries /\ Top.acc = EmptyAcc) =>
+DumpBehaviour == (Dump /\ phase = "walk" /\ Len(stack) = 1 /\ Top.todo = tree.entries /\ Top.acc = EmptyAcc) =>
                      PrintT(<<"REPLAY", ToJson([tree |-> tree, pats |-> pats])>>)
 =============================================================================
